@@ -304,7 +304,7 @@ func init() {
 							}
 						}
 						if hasOut {
-							states = append(states, "missingDir", "dirAtPath", "otherName")
+							states = append(states, "missingDir", "dirAtPath", "otherName", "sameAsInput", "linkToInput")
 						}
 						if !*thorough {
 							states = []string{states[r.Intn(len(states))]}
@@ -317,6 +317,12 @@ func init() {
 			case "C13":
 				for _, sp := range []string{"rel", "abs", "pkgdir", "gofile", "dotrel", "rel", "abs", "rel", "rel", "pkgdir", "rel", "abs"} {
 					scenarios = append(scenarios, RunScenario{Base: c.Name, Kind: "repeat", OutState: "absent",
+						Argv: spellArgs(c, nil, sp).Argv, Gofile: spellArgs(c, nil, sp).Gofile, Cwd: spellArgs(c, nil, sp).Cwd})
+				}
+				// the same runs over what an earlier run (or anything else) left at the output path, written after the sources:
+				// file times and leftovers are not inputs
+				for _, sp := range []string{"rel", "abs", "pkgdir"} {
+					scenarios = append(scenarios, RunScenario{Base: c.Name, Kind: "repeat", OutState: "stale",
 						Argv: spellArgs(c, nil, sp).Argv, Gofile: spellArgs(c, nil, sp).Gofile, Cwd: spellArgs(c, nil, sp).Cwd})
 				}
 			}
@@ -393,8 +399,8 @@ func init() {
 			if !okArgs {
 				continue
 			}
-			// ---- model correspondence
-			if res.p != nil {
+			// ---- model correspondence (the model's world has no hard links: that state is judged on the implementation alone)
+			if res.p != nil && o.Scenario.OutState != "linkToInput" {
 				p := res.p
 				var diffs []string
 				if p.Args == "config" {
@@ -455,6 +461,21 @@ func init() {
 				if c == outRel {
 					outChanged = true
 				}
+			}
+			if o.Scenario.OutState == "sameAsInput" || o.Scenario.OutState == "linkToInput" {
+				var changed []string
+				for _, c := range o.Changed {
+					if c != logRel && !(logs && strings.HasSuffix(c, ".log")) {
+						changed = append(changed, c)
+					}
+				}
+				if len(changed) > 0 {
+					addJ("C15", "C15|setup-file-overwritten", fmt.Sprintf("%v: the output path is the setup file itself and %v changed", o.Scenario.Argv, changed))
+				}
+				if o.CLI.Exit == 0 && !dry {
+					addJ("C15", "C15|setup-file-overwritten", fmt.Sprintf("%v: the output path is the setup file itself, yet the run reports success", o.Scenario.Argv))
+				}
+				continue
 			}
 			if dry && outChanged {
 				addJ("C15", "C15|dry-run-wrote-output", fmt.Sprintf("%v: -dry but %q changed", o.Scenario.Argv, outRel))
@@ -521,12 +542,22 @@ func init() {
 		for base, os_ := range repeatGroups {
 			first := os_[0]
 			for _, o := range os_[1:] {
-				same := o.CLI.Exit == first.CLI.Exit && fmt.Sprint(canonRunStderr(o)) == fmt.Sprint(canonRunStderr(first)) &&
-					((o.Output == nil) == (first.Output == nil)) && (o.Output == nil || *o.Output == *first.Output)
+				// a failed run leaves the output path as it was (absent or the leftover): the bytes there are compared
+				// for successful runs only
+				sameOut := o.CLI.Exit != 0 ||
+					(((o.Output == nil) == (first.Output == nil)) && (o.Output == nil || *o.Output == *first.Output))
+				same := o.CLI.Exit == first.CLI.Exit && fmt.Sprint(canonRunStderr(o)) == fmt.Sprint(canonRunStderr(first)) && sameOut
 				if !same {
 					rp := filepath.Join(*replayDir, "judge-C13-"+base+".json")
 					_ = os.MkdirAll(*replayDir, 0755)
-					b, _ := json.MarshalIndent(map[string]any{"a": first, "b": o}, "", " ")
+					var files map[string]string
+					setup := ""
+					for _, bc := range bases {
+						if bc.Name == base {
+							files, setup = bc.Files, bc.Setup
+						}
+					}
+					b, _ := json.MarshalIndent(map[string]any{"a": first, "b": o, "files": files, "setup": setup}, "", " ")
 					_ = os.WriteFile(rp, b, 0644)
 					sum.Judgements = append(sum.Judgements, Judgement{Property: "C13", Case: base, Key: "C13|runs-differ",
 						What: fmt.Sprintf("two runs of %s differ (%v vs %v)", base, first.Scenario.Argv, o.Scenario.Argv), Replay: rp})
@@ -689,6 +720,16 @@ func buildScenario(c GCase, flags []string, spelling, state string) RunScenario 
 			val = filepath.Join(filepath.Dir(val), "nodir", filepath.Base(val))
 		case "otherName":
 			val = filepath.Join(filepath.Dir(val), "sub", "zz_generated.go")
+		case "sameAsInput":
+			// -out names the setup file itself (spelled as the input is spelled, or with a leading ./)
+			if in := sc.Argv[len(sc.Argv)-1]; sc.Gofile == "" && idx < len(sc.Argv)-1 && !strings.HasPrefix(in, "-") && strings.HasSuffix(in, ".go") {
+				val = in
+			} else {
+				sc.OutState = "absent"
+			}
+		case "linkToInput":
+			// -out names another directory entry of the setup file (a hard link made before the run)
+			val = filepath.Join(filepath.Dir(val), "zz_link_to_setup.go")
 		}
 		if a == "-out" {
 			sc.Argv[idx] = val
@@ -726,6 +767,10 @@ func runScenario(cli string, drv *Driver, work string, sc RunScenario, ref coreR
 			_ = os.MkdirAll(op, 0755)
 		case sc.OutState == "otherName":
 			_ = os.MkdirAll(filepath.Dir(op), 0755)
+		case sc.OutState == "linkToInput":
+			if in, _, _, _, _, _, okIn := expectedPaths(argv, sc.Gofile); okIn {
+				_ = os.Link(resolve(in), op)
+			}
 		case sc.Stale != "":
 			_ = os.MkdirAll(filepath.Dir(op), 0755)
 			_ = os.WriteFile(op, []byte(sc.Stale), 0644)
